@@ -96,6 +96,20 @@ func runRun(f []string) string {
 	return fmt.Sprintf("transpile=ok out=%s status=%d stderr=%s", hx(r.stdout), r.status, hx(r.stderr))
 }
 
+// runBatRun: like runRun, plus the implementation's Batch script (for the cmd.exe model of the driver)
+func runBatRun(f []string) string {
+	dir, _ := os.MkdirTemp("", "rb")
+	defer os.RemoveAll(dir)
+	real := materialise(dir, unhx(f[2]), parseFiles(f[3]))
+	w := transpileTo(real, "batch")
+	o := runRun(f)
+	if strings.HasPrefix(w, "ok:") {
+		return o + " bat=" + w[3:]
+	}
+	return o + " bat=-"
+}
+
 func init() {
 	runners["run"] = runRun
+	runners["batrun"] = runBatRun
 }
